@@ -137,7 +137,12 @@ func checkC04(c *Check, p *Program) {
 			return false
 		}
 		f := ci.Common().StaticCallee()
-		return f != nil && deliverFns[f]
+		if f == nil || !deliverFns[f] {
+			return false
+		}
+		// a deliver function shared between clients is handed the channel: it must be this tunnel's own
+		_, chansOK := deliverArgs(ci, a.inbound)
+		return chansOK
 	}
 	isSockSend := func(in ssa.Instruction) bool {
 		ci, ok := in.(ssa.CallInstruction)
@@ -240,7 +245,7 @@ func checkC04(c *Check, p *Program) {
 		nUDP++
 		c.Decide(anyFact(facts, isExp), "C04.R2", hn+" UDP delivery behind expected number", p.InstrPos(d), "dominated by req.SeqNumber == expected", "a request is delivered although its sequence number is not the expected one (duplicates or out-of-sequence requests reach the application)")
 		// payload delivered is req.Payload
-		args := callArgs(d.(ssa.CallInstruction))
+		args, _ := deliverArgs(d.(ssa.CallInstruction), a.inbound)
 		okp := len(args) == 1 && isLoadOf(args[0], reqPay)
 		c.Decide(okp, "C04.R2", hn+" delivers req.Payload", p.InstrPos(d), "argument is the request's payload", "the value delivered is not the request's payload")
 	}
@@ -523,6 +528,23 @@ func checkC04(c *Check, p *Program) {
 	}
 }
 
+// deliverArgs: the non-channel arguments of a call of a deliver function, and whether every channel argument
+// is loaded from the client's own inbound field (a helper shared by tunnel and router takes the channel).
+func deliverArgs(call ssa.CallInstruction, inbound *types.Var) ([]ssa.Value, bool) {
+	var rest []ssa.Value
+	ok := true
+	for _, a := range callArgs(call) {
+		if _, isCh := a.Type().Underlying().(*types.Chan); isCh {
+			if chanField(a) != inbound {
+				ok = false
+			}
+			continue
+		}
+		rest = append(rest, a)
+	}
+	return rest, ok
+}
+
 // checkDeliverFn: every path through fn hands the (single) message parameter
 // exactly once to a send on channel field chF.
 func checkDeliverFn(c *Check, p *Program, rule string, fn *ssa.Function, chF, doneF *types.Var) {
@@ -565,9 +587,9 @@ func checkDeliverFn(c *Check, p *Program, rule string, fn *ssa.Function, chF, do
 					hasSend := false
 					for _, st := range s.States {
 						switch {
-						case st.Dir == types.SendOnly && chanField(st.Chan) == chF && isMsg(st.Send):
+						case st.Dir == types.SendOnly && chanIs(st.Chan, chF) && isMsg(st.Send):
 							hasSend = true
-						case st.Dir == types.RecvOnly && doneF != nil && chanField(st.Chan) == doneF:
+						case st.Dir == types.RecvOnly && doneF != nil && chanIs(st.Chan, doneF):
 						default:
 							return false, "the parked delivery can give up (select case at " + p.InstrPos(s) + " other than the send or the tunnel's done channel): an accepted telegram is dropped while the tunnel is open"
 						}
@@ -581,10 +603,10 @@ func checkDeliverFn(c *Check, p *Program, rule string, fn *ssa.Function, chF, do
 		match := func(in ssa.Instruction) bool {
 			switch x := in.(type) {
 			case *ssa.Send:
-				return chanField(x.Chan) == chF && isMsg(x.X)
+				return chanIs(x.Chan, chF) && isMsg(x.X)
 			case *ssa.Select:
 				for _, st := range x.States {
-					if st.Dir == types.SendOnly && chanField(st.Chan) == chF && isMsg(st.Send) {
+					if st.Dir == types.SendOnly && chanIs(st.Chan, chF) && isMsg(st.Send) {
 						return true
 					}
 				}
@@ -604,12 +626,12 @@ func checkDeliverFn(c *Check, p *Program, rule string, fn *ssa.Function, chF, do
 		switch x := in.(type) {
 		case *ssa.Select:
 			for _, st := range x.States {
-				if st.Dir == types.SendOnly && chanField(st.Chan) == chF {
+				if st.Dir == types.SendOnly && chanIs(st.Chan, chF) {
 					sel = x
 				}
 			}
 		case *ssa.Send:
-			if chanField(x.Chan) == chF {
+			if chanIs(x.Chan, chF) {
 				nOther++
 			}
 		}
@@ -619,7 +641,7 @@ func checkDeliverFn(c *Check, p *Program, rule string, fn *ssa.Function, chF, do
 		// plain blocking send design
 		min, max := pathCount(fn.Blocks[0], func(in ssa.Instruction) bool {
 			s, ok := in.(*ssa.Send)
-			return ok && chanField(s.Chan) == chF && isMsg(s.X)
+			return ok && chanIs(s.Chan, chF) && isMsg(s.X)
 		}, nil)
 		c.Decide(min == 1 && max == 1, rule, name+" sends the message once", pos, "one blocking send on every path", fmt.Sprintf("paths send the message between %d and %d times", min, max))
 		return
